@@ -93,13 +93,14 @@ class QueueCell:
 
 
 class Obligation:
-    __slots__ = ("name", "kind", "hyps", "goal", "line", "path_id", "props", "info")
+    __slots__ = ("name", "kind", "hyps", "goal", "line", "path_id", "props", "info", "pre")
 
     def __init__(self, name, kind, hyps, goal, line=None, props=(), info=None):
         self.name, self.kind, self.hyps, self.goal, self.line = name, kind, hyps, goal, line
         self.path_id = None
         self.props = tuple(props)
         self.info = info
+        self.pre = None
 
 
 class PathCtx:
@@ -137,12 +138,14 @@ class PathCtx:
         if not _has_quantifier(f):
             self._solver.add(f)
 
-    def oblige(self, name, goal, kind="post", line=None, props=(), info=None):
+    def oblige(self, name, goal, kind="post", line=None, props=(), info=None, extra_hyps=()):
         if goal is True:
             goal = z3.BoolVal(True)
         elif goal is False:
             goal = z3.BoolVal(False)
-        self.obligations.append(Obligation(name, kind, list(self.pc), to_z3_bool(goal), line, props, info))
+        ob = Obligation(name, kind, list(self.pc) + [to_z3_bool(h) for h in extra_hyps], to_z3_bool(goal), line, props, info)
+        ob.pre = getattr(self, "pre_roots", None)
+        self.obligations.append(ob)
 
     def feasible(self, f):
         self._solver.push()
